@@ -25,6 +25,8 @@ type c03Params struct {
 	MustHit bool        `json:"must_hit"`
 	Body    string      `json:"body"`
 	Desc    string      `json:"desc"`
+	// SetupMarks: bodies with id%5==0 mark failure on the handle captured in setup (which is nobody's iteration)
+	SetupMarks bool `json:"setup_marks,omitempty"`
 }
 
 func c03FileYAML(n uint64, c int, limitStage int, r interface{ IntN(int) int }) string {
@@ -120,7 +122,12 @@ func init() {
 				}
 				p.Spec.MaxIterations = N
 				p.Spec.IgnoreDropped = true
-				p.Desc = fmt.Sprintf("mode=%s N=%d c=%d %s body=%s", mode, N, c, tickClass, p.Body)
+				if p.Spec.Mode != "file" {
+					// registered through CombineScenarios (alone or with passing companions) in half of the cases
+					p.Spec.Combine = pick(r, 0, 0, 1, 3)
+				}
+				p.SetupMarks = r.IntN(4) == 0
+				p.Desc = fmt.Sprintf("mode=%s N=%d c=%d %s body=%s combine=%d setupMarks=%v", mode, N, c, tickClass, p.Body, p.Spec.Combine, p.SetupMarks)
 				cse := core.MkCase("C03", "run", i, seed, p)
 				cse.Race = true
 				cse.Procs = pick(r, 1, 2, 4, 16)
@@ -182,10 +189,13 @@ func c03Run(c *core.Case, o *core.Outcome) {
 	rr := c.Rng("body")
 	salt := rr.Uint64()
 	var lastStart atomic.Int64
-	scenario := func(t *f1testing.T) f1testing.RunFn {
+	scenario := func(setupT *f1testing.T) f1testing.RunFn {
 		return func(t *f1testing.T) {
 			defer k.Enter(t)()
 			lastStart.Store(time.Now().UnixNano())
+			if p.SetupMarks && engine.IDOf(t)%5 == 0 {
+				setupT.Fail()
+			}
 			if p.Body == "sleep1ms" {
 				time.Sleep(time.Millisecond)
 				return
@@ -235,6 +245,10 @@ func c03Run(c *core.Case, o *core.Outcome) {
 		return
 	}
 	su, fa, _ := resultCounts(r)
+	if p.SetupMarks && fa != 0 {
+		o.Violate("setup-marks:"+p.Desc, "no body marked its own iteration failed (some marked the handle captured in setup), the result reports %d failed of %d (%s)", fa, S, p.Desc)
+		return
+	}
 	if su+fa != uint64(S) {
 		o.Violate("result:"+p.Desc, "result reports %d+%d started iterations, %d bodies ran (%s)", su, fa, S, p.Desc)
 		return
